@@ -381,12 +381,17 @@ func C16_Strings() {
 }
 
 // C16_Decimal: precision and scale: range errors are non-suppressible;
-// results are finite; an integral value is accepted exactly when it has at
-// most precision - scale digits before the decimal point.
+// results are finite; after rounding to the scale (carries included) a value
+// is accepted exactly when it has at most precision - scale digits before
+// the decimal point.
 func C16_Decimal() {
-	ps := []int{-1, 0, 1, 2, 3, 15, 1000, 1001}
-	ss := []int{-1001, -1000, -2, -1, 0, 1, 2, 308, 309, 1000, 1001}
-	p, s := ps[nd.Choice(len(ps))], ss[nd.Choice(len(ss))]
+	ps := []int{0, 1, 2, 3, 1001, -1, 4, 15, 1000}
+	ss := []int{-1001, -2, -1, 0, 1, 2, 309, 1001, -1000, 308, 1000}
+	np, ns := 5, 8
+	if nd.Thorough() {
+		np, ns = len(ps), len(ss)
+	}
+	p, s := ps[nd.Choice(np)], ss[nd.Choice(ns)]
 	hasScale := nd.Choice(2) == 1
 	src := "$v.decimal(" + itoa(p)
 	if hasScale {
@@ -395,20 +400,34 @@ func C16_Decimal() {
 		s = 0
 	}
 	src += ")"
-	// the value: sign * (one symbolic byte) * multiplier, as int64 or float64,
-	// optionally plus one half (everything ranges over a small domain)
-	mag := int64(nd.Byte()) * []int64{1, 7, 100, 1000}[nd.Choice(4)]
-	if nd.Choice(2) == 1 {
-		mag = -mag
+	// the value: sign * ((one symbolic byte) * multiplier + fraction), as
+	// int64 or float64 (everything ranges over a small domain)
+	mults := []int64{1, 100, 7}
+	nm := 2
+	if nd.Thorough() {
+		nm = 3
 	}
-	var x any = mag
-	switch nd.Choice(3) {
-	case 1:
-		x = float64(mag)
-	case 2:
-		x = float64(mag) + 0.5
+	mag := int64(nd.Byte()) * mults[nd.Choice(nm)]
+	fracs := []struct {
+		f float64
+		h int64 // hundredths
+	}{{0, 0}, {0.5, 50}, {0.25, 25}, {0.99, 99}}
+	fr := fracs[nd.Choice(len(fracs))]
+	neg := nd.Choice(2) == 1
+	var x any
+	if fr.h == 0 && nd.Choice(2) == 0 {
+		if neg {
+			x = -mag
+		} else {
+			x = mag
+		}
+	} else {
+		f := float64(mag) + fr.f
+		if neg {
+			f = -f
+		}
+		x = f
 	}
-	_, isInt, i, f := numView(x)
 	r, err := parse(src).Query(bg, nil, exec.WithVars(exec.Vars{"v": x}))
 	tag := "C16/decimal"
 	if p < 1 || p > 1000 || s < -1000 || s > 1000 {
@@ -421,26 +440,31 @@ func C16_Decimal() {
 		v, ok := r[0].(float64)
 		nd.Assert(ok && finite(v), tag+"/non-finite-result")
 	}
-	// digit rule, decided for integral |x| < 1000 and scale 0
-	if s != 0 {
+	// digit rule, decided for scales -2..2 (ties occur only where the
+	// fraction is exactly representable, so decimal and binary rounding agree)
+	if s < -2 || s > 2 || (fr.h == 99 && s == 2) {
 		return
 	}
-	var am int64
-	if isInt {
-		am = i
-	} else {
-		// scale 0 rounds half away from zero
-		am = int64(nd.RoundFloat(f, 1))
+	X := mag*100 + fr.h // |x| in hundredths
+	unit := int64(1)
+	for i := 0; i < 2-s; i++ {
+		unit *= 10
 	}
-	if am < 0 {
-		am = -am
-	}
+	R := ((X + unit/2) / unit) * unit
 	digits := 0
-	for t := am; t > 0; t /= 10 {
+	for t := R / 100; t > 0; t /= 10 {
 		digits++
 	}
-	if digits <= p {
+	if digits == 0 || digits <= p-s {
 		nd.Assert(err == nil, tag+"/fits-but-rejected")
+		if err == nil {
+			v, _ := r[0].(float64)
+			want := float64(R) / 100
+			if neg {
+				want = -want
+			}
+			nd.Assert(v == want, tag+"/rounded-value")
+		}
 	} else {
 		nd.Assert(err != nil, tag+"/too-many-digits-accepted")
 	}
